@@ -2,7 +2,8 @@
 
 prove       : lean/MontePyVerif/Props/C08.lean
 correspond  : unit U-listnode — Model/ListNode.lean + Model/Shortcut.lean vs ListNode.update_with_new_values / format
-              (node list, covered node ids, written text), lists parsed by the real MCNP_Parser grammar
+              (node list, covered node ids, written text), lists parsed by the real MCNP_Parser grammar;
+              unit U-parse — Model/ShortcutParse.lean vs the node list the real parser builds (structure and values)
 judge       : the written list read by two independent MCNP-rules readers (Lean Spec through the driver, and
               tools/vlib/shortcut_ref.py) against the values the API holds; also parse-time expansion against the Spec;
               real cards (data-block IMP / VOL, TR) through read_input -> edit -> write_to_file
@@ -30,7 +31,16 @@ META = {
 }
 
 THEOREMS = [
+    "C08_recompress_full",
+    "C08_keep_own_values",
+    "C08_keep_own_unedited",
+    "C08_expand",
+    "C08_expand_zero_count_refuted",
+    "C08_recompress",
+    "C08_grow_shrink",
     "C08_consume_inv",
+    "C08_wellformed",
+    "C08_format_sound",
     "C08_jump_only_none",
     "C08_repeat_matches_first",
     "C08_repeat_front_matches_all",
@@ -171,6 +181,9 @@ def apply_edits(vals, edits):
             del vals[e[1]]
         elif op == "ins":
             vals.insert(min(e[1], len(vals)), sn.ValueNode(e[2], float))
+        elif op == "copyall":
+            # what the data-block importances do: hand in copies of the nodes, none of them a node of the list
+            vals = [copy.deepcopy(v) for v in vals]
         elif op == "insj":
             vals.insert(min(e[1], len(vals)), sn.ValueNode(mp.montepy.Jump(), float))
     return vals
@@ -187,7 +200,7 @@ def _run_impl(case):
     """Parse the list with the real grammar, then per round: edit the values, update_with_new_values, format."""
     mp = _mp()
     sn = mp.montepy.input_parser.syntax_node
-    res = {"rounds": []}
+    res = {"rounds": [], "text": case["text"]}
     try:
         ln = parse_list(case["text"])
         if ln is None:
@@ -198,6 +211,12 @@ def _run_impl(case):
         res["parse_err"] = name if name in ("ValueError", "ParsingError", "MalformedInputError") else "leak:" + name
         return res
     res["parsed"] = [rat(v) for v in parsed]
+    res["pnodes"] = [
+        {"sc": KIND[n._type.value], "vals": [rat(x.value) if x.value is not None else None for x in n.nodes]}
+        if isinstance(n, sn.ShortcutNode)
+        else {"v": rat(n.value)}
+        for n in ln.nodes
+    ]
     ids = {}
     keep = []
 
@@ -211,6 +230,7 @@ def _run_impl(case):
         vals = apply_edits(list(ln), edits)
         shortcuts = list(ln._shortcuts)
         sidof = {id(s): k for k, s in enumerate(shortcuts)}
+        own = list(ln)
         mcase = {"op": "update", "shortcuts": [ser_shortcut(s, k, idof) for k, s in enumerate(shortcuts)]}
         ob = {"values": [rat(v.value) if v.value is not None else None for v in vals]}
         try:
@@ -221,12 +241,19 @@ def _run_impl(case):
             res["rounds"].append(ob)
             break
         mcase["vals"] = [ser_leaf(v, idof) for v in vals]
+        mcase["own"] = [ser_leaf(v, idof) for v in own]
         ob["items"] = [
             {"sc": sidof.get(id(n), -1), "kind": KIND[n._type.value], "nodes": [idof(x) for x in n.nodes]}
             if isinstance(n, sn.ShortcutNode)
             else {"leaf": idof(n)}
             for n in ln.nodes
         ]
+        # ValueNode.format may adapt its formatter while printing: keep the count nodes as they are BEFORE the write
+        numcopies = {
+            id(n): copy.deepcopy(n._num_node)
+            for n in ln.nodes
+            if isinstance(n, sn.ShortcutNode) and KIND[n._type.value] == "mul"
+        }
         try:
             ob["text"] = ln.format()
         except Exception as e:  # noqa: BLE001
@@ -236,13 +263,67 @@ def _run_impl(case):
             break
         for n in ln.nodes:
             if isinstance(n, sn.ShortcutNode) and KIND[n._type.value] == "mul" and id(n) in sidof:
-                t = n._num_node.format().strip()
+                c = numcopies[id(n)]
+                c.value = n._num_node.value  # the factor the real write computed
+                t = c.format().strip()
                 d = mcase["shortcuts"][sidof[id(n)]]
                 d["mulTxt"] = t
                 d["mulWritten"] = rat(ref.parse_number(t.strip())) if ref.parse_number(t.strip()) is not None else None
         ob["model_case"] = mcase
         res["rounds"].append(ob)
     return res
+
+
+def tokens_of(text):
+    """the token list the grammar sees (word shapes on which lexer and reader agree), or None"""
+    toks = []
+    for w in text.split():
+        pw = ref.parse_word(w)
+        if pw is None:
+            return None
+        kind, arg = pw
+        if kind == "number":
+            toks.append(["num", rat(arg)])
+        elif kind == "multiply":
+            if not re.fullmatch(r"[+-]?\d+[mM]", w):
+                return None  # known finding C08-F1: not lexed as a shortcut
+            toks.append(["mul", rat(arg)])
+        else:
+            if arg == 0:
+                return None  # count 0 is outside G (C08_expand_zero_count_refuted)
+            toks.append([{"repeat": "rep", "jump": "jmp", "interpolate": "lin", "log_interpolate": "log"}[kind], arg])
+    return toks
+
+
+def parse_agrees(model_items, res):
+    """model's parse-time expansion vs the real parser's node list: structure exactly, numbers inside 1e-12,
+    logarithmic interpolates by their defining relation"""
+    rejected = "parse_err" in res
+    if model_items is None or rejected:
+        return (model_items is None) == rejected
+    impl = res["pnodes"]
+    if len(impl) != len(model_items):
+        return False
+    for mi, ii in zip(model_items, impl):
+        if ("v" in mi) != ("v" in ii):
+            return False
+        if "v" in mi:
+            if Fraction(*mi["v"]) != Fraction(*ii["v"]):
+                return False
+            continue
+        if mi["sc"] != ii["sc"] or len(mi["vals"]) != len(ii["vals"]):
+            return False
+        for mv, iv in zip(mi["vals"], ii["vals"]):
+            if mv == "J" or iv is None:
+                if not (mv == "J" and iv is None):
+                    return False
+            elif isinstance(mv, dict):
+                a, b, n, k = mv["log"]
+                if not ref.matches(("log", Fraction(*a), Fraction(*b), n, k), Fraction(*iv)):
+                    return False
+            elif not ref.close(Fraction(*mv), Fraction(*iv), Fraction(1, 10**12)):
+                return False
+    return True
 
 
 # --------------------------------------------------------------------------- oracle
@@ -363,7 +444,7 @@ def gen_random(rng, i):
     nvals = len(ex) if ex is not None else len(words)
     rounds = []
     for _ in range(rng.choice([1, 1, 2, 3])):
-        edits = []
+        edits = [["copyall"]] if rng.random() < 0.15 else []
         for _ in range(rng.choice([0, 1, 1, 2, 3])):
             r = rng.random()
             pos = rng.randrange(nvals + 1)
@@ -412,6 +493,13 @@ CORPUS = [
     {"unit": "listnode", "text": "1 2i 4", "rounds": [[["set", 1, 2.5]]]},
     {"unit": "listnode", "text": "1 2i 4 3m", "rounds": [[["set", 3, 5.0]]]},
     {"unit": "listnode", "text": "1 2i 4 2 2 r", "rounds": [[["set", 2, 2.0], ["set", 3, 2.0]]]},
+    # the list handed in as copies of its own nodes (fix 70989d6)
+    {"unit": "listnode", "text": "0.5 1.0 2r 4 1.0 1.0", "rounds": [[["copyall"]]]},
+    {"unit": "listnode", "text": "0.5 1.0 2r 4 1.0 1.0", "rounds": [[["copyall"], ["set", 2, 5.0]]]},
+    {"unit": "listnode", "text": "1 2i 4 j 2m", "rounds": [[["copyall"]], [["copyall"], ["del", 1]]]},
+    # entry behind a line break (fix 3dc089c)
+    {"unit": "listnode", "text": "4.\n", "rounds": [[["insj", 1], ["insj", 2], ["ins", 3, "0.5"]]]},
+    {"unit": "listnode", "text": "1 2r\n", "rounds": [[["ins", 3, "7.5"]]]},
 ]
 
 
@@ -469,7 +557,11 @@ def gen_card_case(rng, i):
             edits.append(["remove", rng.randrange(k)])
         elif r < 0.9:
             edits.append(["append", rng.choice([0.0, 1.0, 2.0])])
-    return {"unit": "cards", "kind": kind, "k": k, "words": words, "edits": edits}
+    case = {"unit": "cards", "kind": kind, "k": k, "words": words, "edits": edits}
+    if rng.random() < 0.35:
+        case["comment_after"] = True
+        case["indent"] = rng.choice(["", "   "])
+    return case
 
 
 def _card_file(case):
@@ -483,7 +575,13 @@ def _card_file(case):
     lines.append("")
     lines.append("mode n")
     card = CARD[case["kind"]]
-    lines.append(card + " " + " ".join(case["words"]))
+    if case.get("raw_card"):
+        lines += case["raw_card"]  # the card verbatim (several lines); `words` holds the same entries
+    else:
+        lines.append(case.get("indent", "") + card + " " + " ".join(case["words"]))
+    if case.get("comment_after"):
+        # the comment is handed to the next input: the card's last entry is then followed by a bare line break
+        lines.append("c a comment behind the card")
     if case["kind"] != "imp":
         lines.append("imp:n 1 " + (f"{k - 1}r" if k > 1 else ""))
     lines.append("")
@@ -561,7 +659,11 @@ def _run_card(case):
                 vals += list(t.rotation_matrix)
             return [float(v) for v in vals]
 
-        ob["read_values"] = [rat(v) for v in values()]
+        try:
+            ob["read_values"] = [rat(v) for v in values()]
+        except Exception as e:  # noqa: BLE001  the object built from the card does not hold numbers
+            ob["read_err"] = "values:" + type(e).__name__
+            return ob
         try:
             for e in sorted(case["edits"], key=lambda e: e[0] == "unset"):
                 cl = list(cells)
@@ -599,6 +701,9 @@ def _run_card(case):
             ob["site"] = "format"
             return ob
         ob["text"] = _read_card(out, CARD[kind])
+        if case.get("keep"):
+            with open(out) as fh:
+                ob["kept"] = case["keep"] in fh.read()
         return ob
     finally:
         shutil.rmtree(d, ignore_errors=True)
@@ -616,6 +721,8 @@ def judge_card(case, ob):
         if ref.expand(" ".join(case["words"])) is not None:
             deliberate = ob["read_err"] in ("MalformedInputError", "ParsingError", "ValueError", "IllegalState", "UnsupportedFeature")
             cls = "valid-list-rejected" if deliberate else "leak:" + ob["read_err"]
+            if ob["read_err"].startswith("values:"):
+                cls = "expand-wrong"  # the card was accepted but the object holds something that is not a number
             return (dict(kind_sig, **{"class": cls, "kind": first, "site": "parse", "parser": "DataParser"}), f"{case['words']} rejected: {ob['read_err']}")
         return None
     ex = ref.expand(" ".join(case["words"]))
@@ -643,6 +750,8 @@ def judge_card(case, ob):
         vals = vals  # every cell has an importance
     bad = ref.compare(ob["text"], vals)
     if bad is None:
+        if ob.get("kept") is False:
+            return (dict(kind_sig, **{"class": "comment-lost", "kind": first, "site": "consume"}), f"{case['keep']!r} is no longer in the written file")
         return None
     cls, kd, detail = bad
     return (dict(kind_sig, **{"class": cls, "kind": kd, "site": "format"}), f"{detail}; card text {ob['text']!r}")
@@ -652,6 +761,10 @@ def judge_card(case, ob):
 def _model_results(drv, impl):
     batch, where = [], []
     for ci, ri in enumerate(impl):
+        toks = tokens_of(ri.get("text", "")) if "text" in ri else None
+        if toks is not None:
+            batch.append({"op": "parse", "toks": toks})
+            where.append((ci, -1, "parse"))
         for k, ob in enumerate(ri.get("rounds", [])):
             if "model_case" in ob:
                 batch.append(ob["model_case"])
@@ -689,6 +802,25 @@ def check_listnode_case(chk, drv, case, ri, table, ci, confirm=True):
             v = judge_parse(mc, run_impl(mc)) or v
         chk.violation(v[0], v[1], {"case": mc, "impl": _strip(run_impl(mc))})
         return True
+    pm = table.get((ci, -1, "parse"))
+    if pm is not None:
+        if "error" in pm:
+            raise MachineryError(f"model driver error: {pm['error']}")
+        chk.traces_validated += 1
+        if not parse_agrees(pm["items"], ri):
+            chk.disagreements_checked += 1
+            r2 = run_impl(case)
+            m2 = drv.batch([{"op": "parse", "toks": tokens_of(case["text"])}])[0]
+            if parse_agrees(m2["items"], r2):
+                chk.count("flaky:parse-correspondence")
+            else:
+                chk.broken_obligation(
+                    "correspondence",
+                    "U-parse (Model/ShortcutParse.lean vs parser_base.py shortcut_sequence + ShortcutNode._expand_*)",
+                    {"impl": {"parse_err": r2.get("parse_err"), "nodes": r2.get("pnodes")}, "model": m2["items"]},
+                    dict(case, rounds=[]),
+                )
+            return True
     for k, ob in enumerate(ri.get("rounds", [])):
         v = judge_round(ob)
         spec = table.get((ci, k, "spec"))
@@ -723,6 +855,9 @@ def check_listnode_case(chk, drv, case, ri, table, ci, confirm=True):
                 if m2["items"] == ob2["items"] and m2["text"] == ob2["text"]:
                     chk.count("flaky:correspondence")
                     return True
+                if _in_isclose_band(ob2["model_case"]):
+                    chk.count("band:multiply-threshold (not compared)")
+                    return True
                 chk.broken_obligation(
                     "correspondence",
                     "U-listnode (Model/ListNode.lean, Model/Shortcut.lean vs syntax_node.py ListNode/ShortcutNode)",
@@ -733,6 +868,26 @@ def check_listnode_case(chk, drv, case, ri, table, ci, confirm=True):
             if not m["spec"]["ok"]:
                 # the model's own text does not read back as its values: the theorem C08_recompress is contradicted
                 chk.broken_obligation("correspondence", "model text vs Spec (C08_recompress instance)", {"model": m}, case)
+                return True
+    return False
+
+
+def _in_isclose_band(mcase):
+    """a multiply validation `isclose(base * written, product)` of this case sits within 1e-12 of the threshold:
+    exact rationals (model) and doubles (code) may then decide differently (DESIGN 1.3); such a case is not compared"""
+    vals = [None if v["val"] is None else Fraction(*v["val"]) for v in mcase.get("vals", [])]
+    for sc in mcase.get("shortcuts", []):
+        if sc["kind"] != "mul" or sc.get("mulWritten") is None:
+            continue
+        w = Fraction(*sc["mulWritten"])
+        for b, p_ in zip(vals, vals[1:]):
+            if b is None or p_ is None:
+                continue
+            m = max(abs(b * w), abs(p_))
+            if m == 0:
+                continue
+            r = abs(b * w - p_) / m
+            if abs(r - Fraction(1, 10**9)) <= Fraction(1, 10**12):
                 return True
     return False
 
